@@ -2,7 +2,7 @@
 (* Construction layer of SliceSyntax: well-formed programs are built by actions that mirror grammar   *)
 (* productions; the guards are the language rules (so that every finished program must compile       *)
 (* without errors).  Used with TLC's simulator for random programs (C02, C09, C20, C08).              *)
-EXTENDS SliceSyntax, Json
+EXTENDS SliceSyntax, Json, Visitor
 
 CONSTANTS MaxFiles, MaxDefs, MaxMembers, MaxTypeOps, MaxAttrs
 
@@ -333,8 +333,9 @@ PrevEnumResetAtEnumEnd == (IsNone(cur) \/ cur.k # "enum") => prevEnum = <<>>
 
 ExpectFile(fl) == [module |-> JoinSegs(fl.mod, 1), fattrs |-> fl.fattrs, mattrs |-> fl.mattrs, defs |-> [i \in 1..Len(fl.defs) |-> ExpectDef(fl.defs[i])]]
 
-\* ---- C20: the order in which a visitor is shown the elements of a file (reference: a plain pre-order walk)
-RECURSIVE TypeString(_), TypeEvents(_)
+\* ---- C20: the element tree of a file as a visitor is shown it (Visitor.tla: [cb, id, kids]); the reference traversal
+\* is its pre-order walk
+RECURSIVE TypeString(_), TypeTree(_)
 TypeString(tr) ==
   (CASE tr.t.f = "prim"  -> tr.t.n
      [] tr.t.f = "named" -> tr.t.name                     \* identifiers are reported unqualified
@@ -342,33 +343,37 @@ TypeString(tr) ==
      [] tr.t.f = "dict"  -> "Dictionary<" \o TypeString(tr.t.k) \o ", " \o TypeString(tr.t.v) \o ">"
      [] tr.t.f = "res"   -> "Result<" \o TypeString(tr.t.s) \o ", " \o TypeString(tr.t.x) \o ">")
   \o (IF tr.opt THEN "?" ELSE "")
-\* a type reference is presented, then the element / key / value / success / failure types nested inside it
-TypeEvents(tr) ==
-  <<[cb |-> "type_ref", id |-> TypeString(tr)]>>
-  \o (CASE tr.t.f = "seq"  -> TypeEvents(tr.t.e)
-         [] tr.t.f = "dict" -> TypeEvents(tr.t.k) \o TypeEvents(tr.t.v)
-         [] tr.t.f = "res"  -> TypeEvents(tr.t.s) \o TypeEvents(tr.t.x)
-         [] OTHER -> <<>>)
+\* a type reference, then the element / key, value / success, failure types nested inside it
+TypeTree(tr) ==
+  [cb |-> "type_ref", id |-> TypeString(tr),
+   kids |-> CASE tr.t.f = "seq"  -> <<TypeTree(tr.t.e)>>
+              [] tr.t.f = "dict" -> <<TypeTree(tr.t.k), TypeTree(tr.t.v)>>
+              [] tr.t.f = "res"  -> <<TypeTree(tr.t.s), TypeTree(tr.t.x)>>
+              [] OTHER -> <<>>]
 RECURSIVE Concat(_, _)
 Concat(ss, i) == IF i > Len(ss) THEN <<>> ELSE ss[i] \o Concat(ss, i + 1)
-MemberEvents(cb, owner, ms) == Concat([i \in 1..Len(ms) |-> <<[cb |-> cb, id |-> owner \o "::" \o ms[i].name]>> \o TypeEvents(ms[i].type)], 1)
-DefEvents(mod, d) ==
+\* the type of a member is presented right after its owner
+MemberTrees(cb, owner, ms) == [i \in 1..Len(ms) |-> [cb |-> cb, id |-> owner \o "::" \o ms[i].name, kids |-> <<TypeTree(ms[i].type)>>]]
+DefTree(mod, d) ==
   LET id == Scoped(mod, d.name) IN
-  CASE d.k = "struct" -> <<[cb |-> "struct", id |-> id]>> \o MemberEvents("field", id, d.fields)
-    [] d.k = "enum" -> <<[cb |-> "enum", id |-> id]>>
-                       \o Concat([i \in 1..Len(d.ens) |-> <<[cb |-> "enumerator", id |-> id \o "::" \o d.ens[i].name]>>
-                                    \o (IF d.ens[i].fields = <<>> THEN <<>> ELSE MemberEvents("field", id \o "::" \o d.ens[i].name, d.ens[i].fields[1]))], 1)
-    [] d.k = "interface" -> <<[cb |-> "interface", id |-> id]>>
-                            \o Concat([i \in 1..Len(d.ops) |-> <<[cb |-> "operation", id |-> id \o "::" \o d.ops[i].name]>>
-                                         \o MemberEvents("parameter", id \o "::" \o d.ops[i].name, d.ops[i].params)
-                                         \o MemberEvents("parameter", id \o "::" \o d.ops[i].name, d.ops[i].rets)], 1)
-    [] d.k = "custom" -> <<[cb |-> "custom", id |-> id]>>
-    [] d.k = "alias" -> <<[cb |-> "alias", id |-> id]>> \o TypeEvents(d.type)
+  CASE d.k = "struct" -> [cb |-> "struct", id |-> id, kids |-> MemberTrees("field", id, d.fields)]
+    [] d.k = "enum" -> [cb |-> "enum", id |-> id,
+                        kids |-> [i \in 1..Len(d.ens) |->
+                                    [cb |-> "enumerator", id |-> id \o "::" \o d.ens[i].name,
+                                     kids |-> IF d.ens[i].fields = <<>> THEN <<>> ELSE MemberTrees("field", id \o "::" \o d.ens[i].name, d.ens[i].fields[1])]]]
+    [] d.k = "interface" -> [cb |-> "interface", id |-> id,
+                             kids |-> [i \in 1..Len(d.ops) |->
+                                         [cb |-> "operation", id |-> id \o "::" \o d.ops[i].name,      \* parameters, then return members
+                                          kids |-> MemberTrees("parameter", id \o "::" \o d.ops[i].name, d.ops[i].params)
+                                                   \o MemberTrees("parameter", id \o "::" \o d.ops[i].name, d.ops[i].rets)]]]
+    [] d.k = "custom" -> [cb |-> "custom", id |-> id, kids |-> <<>>]
+    [] d.k = "alias" -> [cb |-> "alias", id |-> id, kids |-> <<TypeTree(d.type)>>]
 \* the file, then its module, then every definition in source order, containers before their contents
-Traversal(fl) == LET ef == ExpectFile(fl) IN
-                 IF fl.mod = <<>> THEN <<[cb |-> "file", id |-> ""]>> ELSE
-                 <<[cb |-> "file", id |-> ""], [cb |-> "module", id |-> ef.module]>>
-                 \o Concat([i \in 1..Len(ef.defs) |-> DefEvents(fl.mod, ef.defs[i])], 1)
+FileTree(fl) == LET ef == ExpectFile(fl) IN
+                [cb |-> "file", id |-> "",
+                 kids |-> (IF fl.mod = <<>> THEN <<>> ELSE <<[cb |-> "module", id |-> ef.module, kids |-> <<>>]>>)
+                          \o [i \in 1..Len(ef.defs) |-> DefTree(fl.mod, ef.defs[i])]]
+Traversal(fl) == PreOrder(FileTree(fl))
 
 \* nothing from another file is presented: every declared element shown while file f is walked lies in file f (the
 \* types nested in an alias are reached through their users, wherever the alias was written: 0 = not constrained)
@@ -383,7 +388,8 @@ Rendered(f) == LET placed == Place(AllToks[f], 1, [row |-> 1, col |-> 1], ch.see
                 spans |-> {SpanFacts(placed, el) : el \in Els(placed)}]
 Emit == done => PrintT(<<"CASE", ToJson([files |-> [f \in 1..Len(prog) |-> Rendered(f)],
                                          expect |-> [f \in 1..Len(prog) |-> ExpectFile(prog[f])],
-                                         visit |-> [f \in 1..Len(prog) |-> InFile(Traversal(prog[f]), f)]])>>)
+                                         visit |-> [f \in 1..Len(prog) |-> InFile(Traversal(prog[f]), f)],
+                                         tree |-> [f \in 1..Len(prog) |-> FileTree(prog[f])]])>>)
 
 ----------------------------------------------------------------------------------------------------
 (* C04 in context: ONE violation of a language rule is injected into a finished, well-formed program   *)
